@@ -22,6 +22,25 @@ CELLS = ["v", "", "multi\nline", "a|b", "é😀", " pad ", "\r", "x\n\ny", 0, 1,
 COLNAMES = ["a", "b", "Metric", "Value", "c d", "é", "x/y", "n\nl", "", "|"]
 METRICS = ["acc", "f1", "é", "a/b", "m m", "x"]
 PATHS_PLOT = ["p.png", "dir/q.png", "é.png", "p q.png", "a)b.png"]
+# str(estimator_html_repr(model)) as the generator invents it (add_model_plot; sklearn's HTML is not modelled):
+# line feeds followed by every kind of whitespace (space, tab, LF, CR, VT, FF, U+001C-1F, U+0085, U+00A0, U+1680, U+2003, U+2028,
+# U+205F, U+3000) and by look-alikes that are NOT whitespace (U+200B, U+180E, U+FEFF, U+2060, U+001B, U+0084), CR LF, LF at the
+# very end, the class name zero/one/two times, split, doubled, overlapping with itself, in other case; non-BMP characters
+HTML_WS = [" ", " ", "  ", "    ", "\t", "\n", "\r", "\x0b", "\x0c", "\x1c", "\x1d", "\x1e", "\x1f", "\x85", "\xa0", "\u1680",
+           "\u2000", "\u2003", "\u200a", "\u2028", "\u2029", "\u202f", "\u205f", "\u3000"]
+HTML_NOT_WS = ["\u200b", "\u180e", "\ufeff", "\u2060", "\x1b", "\x84", "\x86", "\x08", "\x0e", "\x7f", "\u2007\u200b", "\U000E0020"]
+HTML_TEXT = ["a", "x", "<div>", "</div>", "<pre>A()</pre>", "é", "\U0001F600", "\U00010348", '"', 'class="', '">', "{", "}",
+             "sk-top-container", "sk-top-container", "sk-top-container", "sk-top-", "container", "sk-top-containe", "k-top-container",
+             "sk-top-sk-top-container", "sk-top-containersk-top-container", "sk-top-containesk-top-container", "Sk-top-container",
+             "sk-top-container-id-1", "sk\n-top-container", "sk-top-\n container", "sk-top-\n\tcontainer"]
+HTML_TEMPLATES = [
+    '<style>#sk-1 {\n  color: var(--c);\n}\n\n#sk-1 pre {\n\tpadding: 0;\n}\n</style><div id="sk-1" class="sk-top-container">\n    <div class="sk-text-repr-fallback">'
+    '<pre>A()</pre>\n  </div>\n</div>\n',
+    '<style>#sk-2.sk-top-container {\n  x: y;\n}\n</style><body><div id="sk-2" class="sk-top-container">\r\n  <pre>P(steps=[(&#x27;a&#x27;,\n                 B())])</pre>\r\n</div></body>',
+    '<div class="sk-top-container"><div class="sk-top-container">\n\n\n</div>\n\xa0</div>',
+    '<div class="sk-top\n   -container">\n</div>\n',
+]
+DESCRIPTIONS = ["The model", "d\nd", " ", "\n", "sk-top-container", "é\U0001F600"]
 FORBIDDEN_KEYS = {"folded", "description", "alt_text", "section", "self"}
 
 
@@ -36,6 +55,33 @@ def title(rnd):
     else:
         t = "".join(rnd.choice(PIECES) for _ in range(rnd.randint(4, 6)))
     return t
+
+
+def html_text(rnd):
+    r = rnd.random()
+    if r < 0.05:
+        return ""
+    if r < 0.09:
+        return rnd.choice(["\n", "\n\n", "\n ", " \n", "\r\n", "\n\r\n", "sk-top-container", "\nsk-top-container\n"])
+    if r < 0.24:
+        t = rnd.choice(HTML_TEMPLATES)
+        if rnd.random() < 0.3:
+            t = t.replace("\n  ", "\n" + rnd.choice(HTML_WS + HTML_NOT_WS), 1)
+        return t
+    out = []
+    for _ in range(rnd.randint(1, 9)):
+        q = rnd.random()
+        if q < 0.38:
+            out.append("\n" + "".join(rnd.choice(HTML_WS) for _ in range(rnd.choice([0, 1, 1, 2, 3]))))
+        elif q < 0.48:
+            out.append("\n" + rnd.choice(HTML_NOT_WS) + rnd.choice(["", " ", "\n"]))
+        elif q < 0.56:
+            out.append(rnd.choice(HTML_WS))
+        else:
+            out.append(rnd.choice(HTML_TEXT))
+    if rnd.random() < 0.25:
+        out.append("\n")
+    return "".join(out)
 
 
 class Gen:
@@ -137,6 +183,11 @@ class Gen:
             self.live.append(sect)
             names = rnd.sample(["C", "tol", "steps", "clf__alpha", "é"], rnd.randint(0, 3))
             return ["hyper", sect, self.opt(["params"]), [[n, rnd.choice([1.0, None, "l2", 100, "a\nb"])] for n in names]]
+        if kind == "modelplot":
+            # card.add_model_plot(section, description) with estimator_html_repr returning the invented text
+            sect = self.key(0.5)
+            self.live.append(sect)
+            return ["modelplot", sect, self.opt(DESCRIPTIONS), html_text(rnd)]
         if kind == "select":
             return ["select", self.path(0.15)]
         if kind == "chain":
@@ -223,6 +274,8 @@ class Emitter:
             return f"OAddMetrics {self.pstr(op[1])} {self.opt(op[2])} {self.kvs(op[3])}"
         if k == "hyper":
             return f"OAddHyperparams {self.pstr(op[1])} {self.opt(op[2])} {self.kvs(op[3])}"
+        if k == "modelplot":
+            return f"OAddModelPlot {self.pstr(op[1])} {self.opt(op[2])} {self.pstr(op[3])}"
         if k == "select":
             return f"OSelect {self.pstr(op[1])}"
         if k == "chain":
@@ -254,8 +307,9 @@ def mode_term(mode):
     return (f"(mkMode {f('toc')} {f('render')} {f('save')} {f('nodes')} {f('addr')} {f('format')} {f('metrics')})")
 
 
-def cases_file(results, mode):
-    """results: impl_card trace outputs.  One Coq file comparing show_case with the implementation's text."""
+def cases_file(results, mode, clip=None):
+    """results: impl_card trace outputs.  One Coq file comparing show_case with the implementation's text.
+    clip=n: very long observations; report only a window of n code points around the first difference."""
     em = Emitter()
     rows = []
     for r in results:
@@ -263,7 +317,8 @@ def cases_file(results, mode):
         rows.append(f"(({em.oracle(r['oracle'])}, {ops}), {em.ints(r['expected'])})")
     body = ["From Skv Require Import PyStr Json Corr Show.", "Open Scope N_scope.", em.header(),
             "Definition cases : list ((oracle_table * list op) * pstr) := " + em.lst(rows, "((oracle_table * list op) * pstr)") + ".",
-            f"Eval vm_compute in report (show_case {mode_term(mode)}) cases."]
+            f"Eval vm_compute in report (show_case {mode_term(mode)}) cases." if not clip else
+            f"Eval vm_compute in report_clipped {clip} (show_case {mode_term(mode)}) cases."]
     return "\n".join(body) + "\n"
 
 
@@ -310,9 +365,10 @@ def steps(ints):
     return res
 
 
-def correspond(R, name, seqs, mode, shards=None):
+def correspond(R, name, seqs, mode, shards=None, clip=None):
     """Run the sequences on the implementation, compare with the model in Coq.
-    Returns (results, bad) with bad = [(case index, step, impl text, model text)]."""
+    Returns (results, bad) with bad = [(case index, step, impl text, model text)]
+    (clip=n: both texts are the n code points around the first difference, prefixed with its offset in the step)."""
     p = C.run_impl("impl_card.py", input_obj={"what": "trace", "mode": mode, "build": str(R.gen), "cases": seqs},
                    timeout=1500)
     if p.returncode != 0:
@@ -326,7 +382,7 @@ def correspond(R, name, seqs, mode, shards=None):
     files, spans = [], []
     for i in range(0, len(results), size):
         f = R.gen / f"Cases_{name}_{i // size}.v"
-        f.write_text(cases_file(results[i:i + size], mode))
+        f.write_text(cases_file(results[i:i + size], mode, clip))
         files.append(f)
         spans.append(i)
     R.notes["shards"] = R.notes.get("shards", 0) + len(files)
@@ -345,6 +401,10 @@ def correspond(R, name, seqs, mode, shards=None):
         for idx, step, got in rep:
             exp = steps(results[base + idx]["expected"])
             a = exp[step - 1] if 1 <= step <= len(exp) else []
+            if clip and got:
+                off, got = got[0], got[1:]
+                bad.append((base + idx, step - 1, f"[@{off}] " + readable(a[off:off + clip]), f"[@{off}] " + readable(got)))
+                continue
             bad.append((base + idx, step - 1, readable(a), readable(got)))
     return results, bad
 
@@ -355,7 +415,8 @@ TRUSTED = ["Coq 8.16.1 kernel + vm_compute (no native_compute)",
            "harness/cardgen.py (generator, Coq emission)",
            "PrettyTable's markdown layout: oracle (Section variable `pretty`); in the correspondence it is instantiated by the "
            "table recorded from the real PrettyTable for the exact (field names, cells) it was handed",
-           "str() of table cells / metric values and sklearn get_params(deep=True): inputs of the model, not modelled"]
+           "str() of table cells / metric values, sklearn get_params(deep=True) and str(estimator_html_repr(model)): inputs of the "
+           "model, not modelled (the HTML text is either generated or captured from the one call the implementation makes)"]
 
 
 def oracle_search(R, seqs, label):
@@ -396,6 +457,12 @@ def run_property(R, prop, weights, mode, maxlen, n_quick, n_thorough, probes=(),
             if o[0] == "table":
                 for _, spec in o[3]:
                     R.count("table-input:" + ("DataFrame" if spec.get("df") else "dict"))
+            if o[0] == "modelplot":            # statistics only (which branches of _add_model_plot the inputs reach)
+                stripped = re.sub(r"\n\s+", "", o[3])
+                k = stripped.count("sk-top-container")
+                R.count("modelplot-html:class-name-" + ("0" if k == 0 else "1" if k == 1 else "2+"))
+                R.count("modelplot-html:" + ("LF+whitespace-present" if stripped != o[3] else "nothing-to-remove"))
+                R.count("modelplot-description:" + ("None" if o[2] is None else "empty" if o[2] == "" else "text"))
         if (U + 9) in r["expected"]:
             R.count("sequences-with-a-raising-render/format")      # ragged table: PrettyTable refuses the columns
         lens[len(sq)] = lens.get(len(sq), 0) + 1
